@@ -1,5 +1,5 @@
 // C20: password detection — implementation side (model side: ocaml/cmd_password.ml).
-//   password ooxml <path> …   Cfb::new (hook cfb_new) on the file: directory names + has_directory,
+//   password ooxml|ooxmlf <path> …   Cfb::new (hook cfb_new) on the file: directory names + has_directory,
 //                              then Xlsx::new and Xlsb::new on the same bytes
 //        -> names=<hex,…>;has=<0|1>|xlsx=<c>|xlsb=<c>   or   err:<io|ole|invalid|emptyroot|other>|xlsx=…|xlsb=…
 //           c = password | pass (any other outcome: Ok or another error) | panic | alloc
@@ -139,7 +139,7 @@ pub fn run(args: &[&str]) -> String {
         Err(_) => return "nofile".to_string(),
     };
     match sub {
-        "ooxml" => format!("{}|xlsx={}|xlsb={}", cfb_part(&bytes), pass(xlsx(&bytes)), pass(xlsb(&bytes))),
+        "ooxml" | "ooxmlf" => format!("{}|xlsx={}|xlsb={}", cfb_part(&bytes), pass(xlsx(&bytes)), pass(xlsb(&bytes))),
         "xls" => format!("xls={}", xls(&bytes)),
         "ods" => format!("ods={}", ods(&bytes)),
         "all" => format!(
